@@ -31,7 +31,7 @@ func vcX() float64 {
 	// multiple of 2^-52: with exponent field E, e = 1023-E, the low e mantissa bits are zero
 	e := 1023 - (xb >> 52)
 	mant := xb & (1<<52 - 1)
-	vrt.Assume(xb == 0 || (e <= 52 && mant&(uint64(1)<<e-1) == 0))
+	vrt.Assume(xb != 0 && e <= 52 && mant&(uint64(1)<<e-1) == 0) // computeRandom never yields 0 (see VC11_random)
 	if !vrt.IsSymbolic() {
 		// computeRandom: frac in [0.5,1) from the random bits, X = frac*2-1
 		frac := (x + 1) / 2
@@ -227,6 +227,15 @@ func specProgramOK(cfg *telemetry.UploadConfig, prog, vers, gov string) bool {
 	return g && pv
 }
 
+func vcListed(list []string, s string) bool {
+	for _, v := range list {
+		if v == s {
+			return true
+		}
+	}
+	return false
+}
+
 func vcHasNL(s string) bool {
 	for i := 0; i < len(s); i++ {
 		if s[i] == '\n' {
@@ -325,7 +334,9 @@ func VC01_report() {
 	}
 	// (v) completeness: every approved local counter with rate >= X is present
 	for _, f := range files {
-		if !specProgramOK(cfg, f.Meta["Program"], f.Meta["Version"], f.Meta["GoVersion"]) {
+		// completeness is owed to builds the configuration approves in full: program,
+		// version, Go version and - as the server and the viewer require, C11 - GOOS/GOARCH
+		if !specProgramOK(cfg, f.Meta["Program"], f.Meta["Version"], f.Meta["GoVersion"]) || !vcListed(cfg.GOOS, f.Meta["GOOS"]) || !vcListed(cfg.GOARCH, f.Meta["GOARCH"]) {
 			continue
 		}
 		var pr *telemetry.ProgramReport
